@@ -124,7 +124,7 @@ Definition mk_lsys (ls : list (list nat)) (ws : list nat) : lsys :=
 Definition m_locks (c : nat * list (list nat) * list nat * list (list nat) * list lact) : bool * bool * bool :=
   match c with (n, ls, ws, acq, tr) =>
     let y := mk_lsys ls ws in
-    (fst (laccepts n y tr), snd (laccepts n y tr), list_eqb (list_eqb Nat.eqb) ls acq)
+    (fst (laccepts_fast n y tr), snd (laccepts_fast n y tr), list_eqb (list_eqb Nat.eqb) ls acq)
   end.
 Definition eq3 (a b : bool * bool * bool) : bool :=
   match a, b with (x1, y1, z1), (x2, y2, z2) => Bool.eqb x1 x2 && Bool.eqb y1 y2 && Bool.eqb z1 z2 end.
